@@ -286,8 +286,12 @@ def countZeros (bm : Array Nat) (ranks : BitList) (i : Nat) : Option Nat := do
   let w ← bm[wordIdx]?
   some (i - r - popcount (w % 2 ^ bitIdx))
 
-/-- `bits.TrailingZeros64` -/
-def tz64 (w : Nat) : Nat := ((List.range 64).find? fun i => w.testBit i).getD 64
+/-- `bits.TrailingZeros64` (64 for a word without a one among its low 64 bits) -/
+def tzAux (w : Nat) : (fuel k : Nat) → Nat
+  | 0, k => k
+  | fuel + 1, k => if w.testBit k then k else tzAux w fuel (k + 1)
+
+def tz64 (w : Nat) : Nat := tzAux w 64 0
 
 /-- the inner `for w := bm[i]; w > 0;` loop of `selectIthOne`;
 result `inl bitIdx` = found, `inr find'` = word exhausted with `find'` ones still to skip. -/
